@@ -1,0 +1,7 @@
+//go:build !verif
+
+// Package verifhook: gate points used only by the verification harness; without the
+// build tag verif they compile to nothing.
+package verifhook
+
+func At(point, key string) {}
